@@ -20,7 +20,7 @@ VARIABLES l, seen
 tvars == <<st, count, creator, explicit, h, m, last, l, seen>>
 
 TraceObjType  == <<"Base", "Derived", "Base", "Derived">>
-TraceSlotType == <<"Base", "Base", "Base", "Derived", "Derived", "Derived">>
+TraceSlotType == <<"Base", "Base", "Base", "Derived", "Derived", "CBase">>
 PolicyAny     == [mc |-> "any", ma |-> "any", sm |-> "any", cmc |-> "any", cma |-> "any"]
 Kinds         == {"mc", "ma", "sm", "cmc", "cma"}
 MembersDerived == {"Derived"}
